@@ -26,7 +26,7 @@ pub const ALPHABET: &[&str] = &[
 ];
 /// further spellings used as replacement/insertion tokens by the edit enumerations of C01/C02 (not part of the
 /// SplSession alphabet that is count-bound to TLC): literals outside the core of SPL
-pub const EXTRA_TOKENS: &[&str] = &["'\u{142}'", "'\u{20AC}'", "'\u{1F600}'", "99999999999", "0xFFFFFFFFF"];
+pub const EXTRA_TOKENS: &[&str] = &["//", "'\u{142}'", "'\u{20AC}'", "'\u{1F600}'", "99999999999", "0xFFFFFFFFF"];
 
 fn render_tokens(spells: &[String], doc_before: &[usize]) -> (String, Vec<usize>, Vec<usize>) {
     // canonical layout: one blank between tokens; a doc comment line in front of the tokens listed in
